@@ -59,11 +59,16 @@ def _mono_mul(m1, m2):
 SQRT_CONST: dict[int, Fraction] = {}  # atom id of SQRT(numeral c) -> c   (SQRT(c)^2 = c is applied by the normaliser)
 
 
+INDICATORS: set[int] = set()  # atom ids of 0/1 indicator atoms: [c]^n = [c] for n >= 1
+
+
 def _reduce_sqrt(m, c):
-    if not SQRT_CONST:
+    if not SQRT_CONST and not INDICATORS:
         return m, c
     out = []
     for a, p in m:
+        if p > 1 and a in INDICATORS:
+            p = 1
         k = SQRT_CONST.get(a)
         if k is not None:
             while p >= 2:
@@ -93,7 +98,7 @@ def p_mul(a, b):
                 r.pop(m, None)
             else:
                 r[m] = v
-    return r
+    return _reduce_sin(r)
 
 
 def _p_mul_unused(a, b):
@@ -113,6 +118,114 @@ def p_pow(a, n):
     r = _const(1)
     for _ in range(n):
         r = p_mul(r, a)
+    return r
+
+
+TRIG_EXPAND = [False]  # expand ER/COS/SIN of sums by the addition theorems (exponential in the number of summands;
+#                        switched on by the lemmas that need it)
+SIN_TO_COS: dict[int, int] = {}   # atom id of SIN(a) -> atom id of COS(a)   (SIN^2 = 1 - COS^2 is applied)
+_DECLS = {}
+
+
+class trig_expand:
+    """context: addition theorems of ER/COS/SIN are applied as rewrite rules inside (normal forms are not cached across
+    the switch)"""
+
+    def __enter__(self):
+        self.prev = TRIG_EXPAND[0]
+        TRIG_EXPAND[0] = True
+        _CACHE.clear()
+
+    def __exit__(self, *a):
+        TRIG_EXPAND[0] = self.prev
+        _CACHE.clear()
+
+
+def _trans_atom(name, p):
+    """atom for ER/COS/SIN of the single-monomial, positive-coefficient argument p"""
+    from . import smt as _smt
+    f = {"ER": _smt.ER, "COS": _smt.COS, "SIN": _smt.SIN}[name]
+    t = f(rebuild(p))
+    _KEEP.append(t)
+    r = _atom(t)
+    if name == "SIN":
+        c = _smt.COS(rebuild(p))
+        _KEEP.append(c)
+        _atom(c)
+        SIN_TO_COS[t.get_id()] = c.get_id()
+    return r
+
+
+def _trans(decl, name, p):
+    """exponential-polynomial normal form: ER / COS / SIN of a sum are expanded by the addition theorems, negative
+    arguments by parity (ER(-x) = ER(x)^-1), so that every transcendental atom has a single-monomial argument with a
+    positive coefficient (axioms A1 used as rewrite rules)"""
+    items = sorted(p.items())
+    if not items:
+        return _const(0) if name == "SIN" else _const(1)
+    if len(items) > 1 and not TRIG_EXPAND[0]:
+        # default: canonical argument + parity only (sign-normalised on the first monomial); no addition theorems
+        if items[0][1] < 0:
+            return _trans_neg(name, p_scale(p, -1))
+        return _trans_atom(name, p)
+    if len(items) == 1:
+        (m, c), = items
+        if m == ():
+            # numeric argument: keep as an atom (COS(0)/SIN(0)/ER(0) were folded above)
+            return _trans_atom(name, p) if c > 0 else _trans_neg(name, {m: -c})
+        if c < 0:
+            return _trans_neg(name, {m: -c})
+        return _trans_atom(name, p)
+    first = {items[0][0]: items[0][1]}
+    rest = dict(items[1:])
+    if name == "ER":
+        return p_mul(_trans(decl, "ER", first), _trans(decl, "ER", rest))
+    c1, s1 = _trans(decl, "COS", first), _trans(decl, "SIN", first)
+    c2, s2 = _trans(decl, "COS", rest), _trans(decl, "SIN", rest)
+    if name == "COS":
+        return p_add(p_mul(c1, c2), p_scale(p_mul(s1, s2), -1))
+    return p_add(p_mul(s1, c2), p_mul(c1, s2))
+
+
+def _trans_neg(name, q):
+    """name(-q) in terms of name(q), q with positive coefficient"""
+    a = _trans_atom(name, q)
+    if name == "COS":
+        return a
+    if name == "SIN":
+        return p_scale(a, -1)
+    ((m, c),) = a.items()
+    return {tuple((x, -pw) for x, pw in m): 1 / c}
+
+
+def _reduce_sin(r):
+    """apply SIN(a)^2 -> 1 - COS(a)^2 until no SIN atom has a power >= 2"""
+    if not SIN_TO_COS:
+        return r
+    changed = True
+    while changed:
+        changed = False
+        for m in list(r):
+            hit = None
+            for a, pw in m:
+                if pw >= 2 and a in SIN_TO_COS:
+                    hit = (a, pw)
+                    break
+            if hit is None:
+                continue
+            c = r.pop(m)
+            a, pw = hit
+            base = tuple((x, (p if x != a else p - 2)) for x, p in m)
+            base = tuple((x, p) for x, p in base if p != 0)
+            m2 = _mono_mul(base, ((SIN_TO_COS[a], 2),))
+            for mm, cc in ((base, c), (m2, -c)):
+                v = r.get(mm, 0) + cc
+                if v == 0:
+                    r.pop(mm, None)
+                else:
+                    r[mm] = v
+            changed = True
+            break
     return r
 
 
@@ -162,9 +275,29 @@ def _poly(e):
         return _atom(e)
     if k == z3.Z3_OP_ITE and e.sort() != z3.BoolSort():
         # ite(c, a, b) = b + [c] * (a - b) with the indicator atom [c] = ite(c, 1, 0): masks become multiplicative
-        ind = z3.If(ch[0], z3.RealVal(1), z3.RealVal(0))
+        # only mask-like ites (one branch identically 0) become multiplicative indicators; a general ite stays an atom
+        # whose branches are put in normal form (so that equal branches written differently give the same atom)
         pa, pb = poly(ch[1]), poly(ch[2])
-        return p_add(pb, p_mul(_atom(ind), p_add(pa, p_scale(pb, -1))))
+        if not pb:
+            ind = z3.If(ch[0], z3.RealVal(1), z3.RealVal(0))
+            INDICATORS.add(ind.get_id())
+            _KEEP.append(ind)
+            return p_mul(_atom(ind), pa)
+        if not pa:
+            ind = z3.If(ch[0], z3.RealVal(0), z3.RealVal(1))
+            INDICATORS.add(ind.get_id())
+            _KEEP.append(ind)
+            return p_mul(_atom(ind), pb)
+        if e.sort() == z3.RealSort():
+            try:
+                na, nb = rebuild(pa), rebuild(pb)
+                if na.get_id() != ch[1].get_id() or nb.get_id() != ch[2].get_id():
+                    e2 = z3.If(ch[0], na, nb)
+                    _KEEP.append(e2)
+                    return _atom(e2)
+            except PolyTooLarge:
+                pass
+        return _atom(e)
     if k == z3.Z3_OP_DIV:
         den = poly(ch[1])
         if len(den) == 1 and () in den:
@@ -180,6 +313,11 @@ def _poly(e):
         rec = z3.RealVal(1) / rebuild(prim)
         RECIPROCALS[rec.get_id()] = rec
         return p_scale(p_mul(poly(ch[0]), _atom(rec)), 1 / lead)
+    if k == z3.Z3_OP_UNINTERPRETED and len(ch) == 1 and e.decl().name() in ("ER", "COS", "SIN"):
+        try:
+            return _trans(e.decl(), e.decl().name(), poly(ch[0]))
+        except PolyTooLarge:
+            return _atom(e)
     if k == z3.Z3_OP_UNINTERPRETED and len(ch) == 1 and e.decl().name() == "SQRT" and (z3.is_rational_value(ch[0]) or z3.is_int_value(ch[0])):
         r = _atom(e)
         cv = ch[0]
@@ -324,11 +462,17 @@ def rebuild_mono(m, canonical=False):
     return t
 
 
+def _mono_key(m):
+    return tuple(sorted((structural_key(ATOMS[a]), pw) for a, pw in m))
+
+
 def rebuild(p):
+    """polynomial -> z3 term in a canonical, name-independent order (monomials and factors sorted by structural key),
+    so that equal polynomials over differently named constants rebuild to terms of the same shape"""
     t = None
-    for m in sorted(p):
+    for m in sorted(p, key=lambda mm: (_mono_key(mm), mm)):
         c = p[m]
-        mt = rebuild_mono(m)
+        mt = rebuild_mono(m, canonical=True)
         cz = z3.RealVal(f"{c.numerator}/{c.denominator}")
         term = cz if mt is None else (mt if c == 1 else cz * mt)
         t = term if t is None else t + term
